@@ -9,6 +9,7 @@ import (
 	"strings"
 
 	"verif/checker/cfgx"
+	"verif/checker/report"
 )
 
 // ---------------------------------------------------------------- H1 has-before-set
@@ -1422,6 +1423,181 @@ func RuleMC1(c *Ctx) {
 	if n == 0 {
 		sc.Undecided("sites", "-", "no function reaching a duplicate-rejecting inserter")
 	}
+	c.mc2MemoSkips(sc, inserters, isSuccess)
+}
+
+// mc2MemoSkips: the same contradiction through a memo of the caller's own. A call that
+// leads to a duplicate-rejecting inserter is made once per DECLARATION; the memo idiom
+//
+//	if _, done := core.seen[k]; !done { je := core.collect(...); ...; core.seen[k] = struct{}{} }
+//
+// makes it once per KEY and lets every later declaration with that key through to a success
+// return without the inserter having been asked. Obligation (per function, map field and
+// guarded call): where a call that reaches a rejecting inserter is dominated by the fact
+// "k is absent from M" for a map field M that the function also stores into, every success
+// return that can follow the lookup is reached only over that same fact or over the call.
+// The recursion guard (`if _, on := M[k]; on { return error }`) satisfies it: the present
+// branch ends in an error.
+func (c *Ctx) mc2MemoSkips(sc *report.RuleScope, inserters map[*types.Var]map[*types.Func]bool, isSuccess func(*types.Info, *ast.ReturnStmt) bool) {
+	ins := map[*types.Func]bool{}
+	for _, fs := range inserters {
+		for f := range fs {
+			ins[f] = true
+		}
+	}
+	// reaches: functions from which a rejecting inserter is reachable by static calls
+	reaches := map[*types.Func]bool{}
+	for f := range ins {
+		reaches[f] = true
+	}
+	type fn struct {
+		self    *types.Func
+		callees []*types.Func
+	}
+	var all []fn
+	c.P.Funcs(func(pk *pkgT, fd *ast.FuncDecl) {
+		self, _ := pk.TypesInfo.Defs[fd.Name].(*types.Func)
+		if self != nil {
+			all = append(all, fn{self, staticCallees(c.P, pk.TypesInfo, fd.Body)})
+		}
+	})
+	for changed := true; changed; {
+		changed = false
+		for _, f := range all {
+			if reaches[f.self] {
+				continue
+			}
+			for _, g := range f.callees {
+				if reaches[g] {
+					reaches[f.self] = true
+					changed = true
+					break
+				}
+			}
+		}
+	}
+	pk := c.P.Pkg("core")
+	if pk == nil {
+		return
+	}
+	info := pk.TypesInfo
+	nGuarded := 0
+	c.P.Funcs(func(p *pkgT, fd *ast.FuncDecl) {
+		if p != pk {
+			return
+		}
+		// map fields stored into by this function
+		stored := map[*types.Var]bool{}
+		mapField := func(e ast.Expr) *types.Var {
+			sel, ok := ast.Unparen(e).(*ast.SelectorExpr)
+			if !ok {
+				return nil
+			}
+			v, ok := info.ObjectOf(sel.Sel).(*types.Var)
+			if !ok || !v.IsField() {
+				return nil
+			}
+			if _, isMap := v.Type().Underlying().(*types.Map); !isMap {
+				return nil
+			}
+			return v
+		}
+		inspectNoLit(fd.Body, func(n ast.Node) bool {
+			if as, ok := n.(*ast.AssignStmt); ok {
+				for _, l := range as.Lhs {
+					if ix, ok := ast.Unparen(l).(*ast.IndexExpr); ok {
+						if m := mapField(ix.X); m != nil {
+							stored[m] = true
+						}
+					}
+				}
+			}
+			return true
+		})
+		if len(stored) == 0 {
+			return
+		}
+		cf := c.CFG(pk, fd.Body)
+		absentOf := func(m *types.Var) func(cfgx.Fact) bool {
+			return func(fa cfgx.Fact) bool {
+				if fa.Truth || fa.Derived {
+					return false
+				}
+				if _, isId := ast.Unparen(fa.Expr).(*ast.Ident); !isId {
+					return false
+				}
+				mm, _, found := mapLookupOf(info, cf, fa.Expr)
+				return found && mapField(mm) == m
+			}
+		}
+		isLookupOf := func(m *types.Var) func(ast.Node) bool {
+			return func(n ast.Node) bool {
+				as, ok := n.(*ast.AssignStmt)
+				if !ok || len(as.Lhs) != 2 || len(as.Rhs) != 1 {
+					return false
+				}
+				ix, ok := ast.Unparen(as.Rhs[0]).(*ast.IndexExpr)
+				return ok && mapField(ix.X) == m
+			}
+		}
+		var ms []*types.Var
+		for m := range stored {
+			ms = append(ms, m)
+		}
+		sort.Slice(ms, func(i, j int) bool { return ms[i].Name() < ms[j].Name() })
+		for _, m := range ms {
+			absent := absentOf(m)
+			var guarded []*ast.CallExpr
+			inspectNoLit(fd.Body, func(n ast.Node) bool {
+				call, ok := n.(*ast.CallExpr)
+				if !ok {
+					return true
+				}
+				if g := Callee(info, call); g != nil && reaches[g] && cf.MustAt(call, absent, nil, nil) {
+					guarded = append(guarded, call)
+				}
+				return true
+			})
+			if len(guarded) == 0 {
+				continue
+			}
+			nGuarded++
+			isGuarded := func(nd ast.Node) bool {
+				hit := false
+				ast.Inspect(nd, func(y ast.Node) bool {
+					for _, g := range guarded {
+						if y == ast.Node(g) {
+							hit = true
+						}
+					}
+					return true
+				})
+				return hit
+			}
+			key := fmt.Sprintf("memo:%s:%s", m.Name(), c.P.DeclName(fd))
+			bad := ""
+			inspectNoLit(fd.Body, func(nd ast.Node) bool {
+				ret, ok := nd.(*ast.ReturnStmt)
+				if !ok || !(isSuccess(info, ret) || handsOnVerdict(info, ret)) {
+					return true
+				}
+				if cf.MustAtInit(ret, true, nil, nil, isLookupOf(m)) {
+					return true // no path to this return passes the lookup
+				}
+				if cf.MustAt(ret, absent, nil, nil) || cf.MustAt(ret, nil, isGuarded, nil) {
+					return true
+				}
+				bad = c.P.Pos(ret.Pos())
+				return true
+			})
+			if bad == "" {
+				sc.Holds(key, c.P.Pos(fd.Pos()), fmt.Sprintf("%d call(s) towards a duplicate-rejecting inserter run only when the key is absent from %s, and the present branch never ends in success", len(guarded), m.Name()))
+			} else {
+				sc.Violation(key, c.P.Pos(guarded[0].Pos()), "the call that leads to a duplicate-rejecting inserter is skipped when "+m.Name()+" already holds the key, and the function still returns success at "+bad+": what the call would have declared a second time (an ENUM of a macro pasted twice) is never offered to the duplicate test")
+			}
+		}
+	})
+	sc.Info("memo", "-", fmt.Sprintf("%d function/map pairs in which a call towards a rejecting inserter is guarded by key absence", nGuarded))
 }
 
 // h1CallersLookedUp: the key of the insert is a parameter of the function and every static
@@ -1532,4 +1708,166 @@ func (c *Ctx) slotThroughHelper(pk *pkgT, cf *cfgx.Func, obj types.Object, path 
 		}
 	}
 	return ""
+}
+
+// handsOnVerdict: `return f(...)` where f is not an error constructor - the function
+// succeeds whenever f does.
+func handsOnVerdict(info *types.Info, ret *ast.ReturnStmt) bool {
+	if len(ret.Results) == 0 {
+		return false
+	}
+	call, ok := ast.Unparen(ret.Results[len(ret.Results)-1]).(*ast.CallExpr)
+	if !ok {
+		return false
+	}
+	g := Callee(info, call)
+	if g == nil {
+		return false
+	}
+	nm := g.Name()
+	if strings.Contains(nm, "Error") || strings.Contains(nm, "Errorf") || (g.Pkg() != nil && g.Pkg().Path() == "errors") {
+		return false
+	}
+	return true
+}
+
+// ---------------------------------------------------------------- PU1
+
+// RulePU1: "only one Path under a parent" is decided against ALL the Paths met under that
+// parent. The walk that collects Path directives (the function that switches on the kind
+// directive.Path, and what it calls) contains a rejection with the not-unique diagnostic;
+// and no such rejection is decided by comparing with one neighbouring element only - the
+// last collected entry (`s[len(s)-1]`) or the previous sibling (`dd[i-1]`). A neighbour test
+// finds a repeat only when equal things are adjacent, and in a walk that descends into the
+// children between two siblings, or with another child standing between two Paths, they
+// are not.
+func RulePU1(c *Ctx) {
+	sc := c.Run.Begin("PU1", "the walk that collects Path directives rejects a second Path of one parent with the not-unique diagnostic, and decides it from everything met so far, never from one neighbouring element (s[len(s)-1], dd[i-1])", 1)
+	defer sc.End()
+	pk := c.P.Pkg("core")
+	dpk := c.P.Pkg("directive")
+	if pk == nil || dpk == nil {
+		sc.Undecided("anchors", "-", "unresolved anchor: packages core / directive")
+		return
+	}
+	pathConst, _ := dpk.Types.Scope().Lookup("Path").(*types.Const)
+	if pathConst == nil {
+		sc.Undecided("anchors", "-", "unresolved anchor: directive.Path")
+		return
+	}
+	info := pk.TypesInfo
+	// the collectors: functions with `case directive.Path` inside a loop over a []*Directive
+	var collectors []*ast.FuncDecl
+	c.P.Funcs(func(p *pkgT, fd *ast.FuncDecl) {
+		if p != pk {
+			return
+		}
+		loops := false
+		ast.Inspect(fd.Body, func(n ast.Node) bool {
+			switch n.(type) {
+			case *ast.ForStmt, *ast.RangeStmt:
+				loops = true
+			}
+			return true
+		})
+		if !loops {
+			return
+		}
+		hit := false
+		ast.Inspect(fd.Body, func(n ast.Node) bool {
+			cc, ok := n.(*ast.CaseClause)
+			if !ok {
+				return true
+			}
+			for _, e := range cc.List {
+				if sel, ok := ast.Unparen(e).(*ast.SelectorExpr); ok && info.ObjectOf(sel.Sel) == types.Object(pathConst) && len(cc.List) == 1 {
+					hit = true
+				}
+			}
+			return true
+		})
+		// only the walk that hands the Path on to a collecting function, not the handler table
+		if hit && strings.Contains(strings.ToLower(fd.Name.Name), "path") {
+			collectors = append(collectors, fd)
+		}
+	})
+	if len(collectors) == 0 {
+		sc.Undecided("collector", "-", "unresolved anchor: the walk that switches on directive.Path")
+		return
+	}
+	for _, col := range collectors {
+		family := []*ast.FuncDecl{col}
+		seen := map[*ast.FuncDecl]bool{col: true}
+		for depth := 0; depth < 2; depth++ {
+			for _, fd := range append([]*ast.FuncDecl(nil), family...) {
+				for _, g := range staticCallees(c.P, info, fd.Body) {
+					if gd := c.P.Decl(g); gd != nil && c.P.PkgOfDecl(gd) == pk && !seen[gd] {
+						seen[gd] = true
+						family = append(family, gd)
+					}
+				}
+			}
+		}
+		rejections, adjacent := 0, 0
+		for _, fd := range family {
+			cf := c.CFG(pk, fd.Body)
+			inspectNoLit(fd.Body, func(n ast.Node) bool {
+				ifs, ok := n.(*ast.IfStmt)
+				if !ok || !endsWithErrorReturn(info, ifs.Body) {
+					return true
+				}
+				ret := ifs.Body.List[len(ifs.Body.List)-1]
+				notUnique := false
+				ast.Inspect(ret, func(y ast.Node) bool {
+					if id, ok := y.(*ast.Ident); ok {
+						if k, ok := info.ObjectOf(id).(*types.Const); ok && k.Name() == "NotUniqueDirective" {
+							notUnique = true
+						}
+					}
+					return true
+				})
+				if !notUnique {
+					return true
+				}
+				rejections++
+				// the condition with the definitions of the locals it reads
+				var neighbour ast.Node
+				var look func(e ast.Node, depth int)
+				look = func(e ast.Node, depth int) {
+					ast.Inspect(e, func(y ast.Node) bool {
+						switch z := y.(type) {
+						case *ast.IndexExpr:
+							if be, ok := ast.Unparen(z.Index).(*ast.BinaryExpr); ok && be.Op == token.SUB {
+								if tv, ok := info.Types[be.Y]; ok && tv.Value != nil && tv.Value.ExactString() == "1" {
+									if neighbour == nil {
+										neighbour = z
+									}
+								}
+							}
+						case *ast.Ident:
+							if depth < 3 {
+								if def := cf.DefOf(info.ObjectOf(z)); def != nil {
+									look(def, depth+1)
+								}
+							}
+						}
+						return true
+					})
+				}
+				look(ifs.Cond, 0)
+				if neighbour != nil {
+					adjacent++
+					sc.Violation(c.P.DeclName(fd)+":neighbour-only", c.P.Pos(neighbour.Pos()), "the not-unique rejection is decided by comparing with one neighbouring element ("+types.ExprString(neighbour.(ast.Expr))+"): two Paths of one parent are found only when nothing was collected or stands between them - `URL ( Path GET ( Path ) Path )` is accepted - and two pasted copies of one directive that follow each other are taken for one parent")
+				}
+				return true
+			})
+		}
+		key := c.P.DeclName(col) + ":second-path-rejected"
+		switch {
+		case rejections == 0:
+			sc.Violation(key, c.P.Pos(col.Pos()), "the walk that collects Path directives has no rejection with the not-unique diagnostic: a second Path under one parent is accepted")
+		case adjacent == 0:
+			sc.Holds(key, c.P.Pos(col.Pos()), fmt.Sprintf("%d rejection(s) with the not-unique diagnostic in the walk (%d functions), none decided from a neighbouring element only", rejections, len(family)))
+		}
+	}
 }
